@@ -60,7 +60,7 @@ def main():
         sh("rm -rf /tmp/clover-test*")
     detected = {}
     if report.get("valid") and checks:
-        rc, out = sh(["git", "-C", "/repo", "apply", os.path.join(os.path.abspath(src), "patch.diff")])
+        REPO = os.environ.get("VERIF_REPO", "/repo"); rc, out = sh(["git", "-C", REPO, "apply", os.path.join(os.path.abspath(src), "patch.diff")])
         try:
             for c in checks:
                 VD = os.environ.get("VERIF_DIR", "/verif"); rc, out = sh([VD + "/check", c], cwd=VD, timeout=3600)
@@ -74,7 +74,7 @@ def main():
                         except Exception:
                             pass
         finally:
-            sh(["git", "-C", "/repo", "checkout", "--", "."])
+            sh(["git", "-C", os.environ.get("VERIF_REPO", "/repo"), "checkout", "--", "."])
             pass
     report["checks"] = detected
     dst = os.path.join("/verif/seeded", name)
